@@ -100,7 +100,8 @@ def witness_cache_disabled():
 def run(out, tier):
     n = 18 if tier == "quick" else 400
     plans = [("witness-parent-missing", witness_parent_missing()), ("witness-cache-disabled", witness_cache_disabled()),
-             ("witness-directory-at-file-path", witness_directory_at_file_path())]
+             ("witness-directory-at-file-path", witness_directory_at_file_path()),
+             ("witness-glob-syntax", hc.witness_glob_syntax(clean_ref=False))]
     clean = dict(hc.CLEAN)
     full = dict(hc.FULL); full["nocache"] = True
     for mode in ("all", "min"):
